@@ -478,6 +478,11 @@ func monitor(s *vdrv.Scenario, h *vdrv.History, fin string, aborted string) stri
 					if !okDone && !ctxErr {
 						return fmt.Sprintf("task %d was accepted before Stop was called but had not finished when Stop returned", id)
 					}
+					// a pool that was running when it accepted the task (and no context was cancelled by the
+					// scenario) must execute it: a context-error result is only legitimate for a pool never started
+					if !okDone && ctxErr && s.OptInt("autostart", 1) == 1 && !hasCancel(s) {
+						return fmt.Sprintf("task %d was accepted by a running pool before Stop was called, yet Stop returned without it having been executed (it got a context error instead)", id)
+					}
 				}
 			}
 		}
@@ -502,6 +507,17 @@ func monitor(s *vdrv.Scenario, h *vdrv.History, fin string, aborted string) stri
 		}
 	}
 	return ""
+}
+
+func hasCancel(s *vdrv.Scenario) bool {
+	for _, th := range s.Threads {
+		for _, o := range th {
+			if o.Name == "C" {
+				return true
+			}
+		}
+	}
+	return false
 }
 
 func main() {
